@@ -16,7 +16,7 @@ LEVEL = 'exploration'
 BUDGET = {'quick': 200, 'thorough': 2400}
 NCASES = {'quick': 1200, 'thorough': 12000}
 RULE = ('cases: key ring (RSA size on the 64-bit grid; cert host/CA type and size), host-key list = seeded subset/order of RSA family + other types + certificate types, probe '
-        'kex (curve25519 mostly; DH groups and GEX sampled), rendering (text/verbose/JSON); 25% of cases add probe-phase faults. non-trivial: a host-key reply was parsed; distinct '
+        'kex (curve25519 mostly; DH groups and GEX sampled), rendering (text/verbose/JSON); 25% of cases add probe-phase faults; every 8th fault-free case probes the server while a second server with other keys is probed by another worker thread of the same invocation (seeded schedule, half with line-level pre-emption). non-trivial: a host-key reply was parsed; distinct '
         'by (key types, RSA size, CA type, CA size, RSA-family subset/order).')
 ASSUMPTIONS = ['size notes are the fail/warn notes a report shows beyond the static database entry of the algorithm (wording not judged)', 'RSA sizes are on the 64-bit grid (the quantifier); a certificate signed by an ECDSA P-521 CA is a listed known finding (528 instead of 521)',
                ]
@@ -37,37 +37,42 @@ def rsa_bits(rng, tier):
     return 64 * rng.randrange(129, 257)          # up to 16384
 
 
+def make_prof(rng, tier):
+    fam = rng.sample(RSA, rng.randrange(0, 4))
+    others = rng.sample(OTHER, rng.randrange(0, 3))
+    keys = {}
+    keylist = list(fam) + others
+    if fam:
+        keys['ssh-rsa'] = {'bits': rsa_bits(rng, tier)}
+    for o in others:
+        keys[o] = {}
+    ca_types = ['ssh-rsa', 'ssh-rsa', 'ssh-ed25519', 'ecdsa-sha2-nistp256', 'ecdsa-sha2-nistp384', 'ecdsa-sha2-nistp521']
+    if rng.random() < 0.45:
+        certs = rng.sample(RSA_CERTS, rng.randrange(1, 3))
+        ct = rng.choice(ca_types)
+        spec = {'bits': keys.get('ssh-rsa', {}).get('bits') or rsa_bits(rng, tier), 'ca_type': ct, 'ca_bits': rsa_bits(rng, tier) if ct == 'ssh-rsa' else 0}
+        keys['ssh-rsa-cert-v01@openssh.com'] = spec
+        keylist = certs + keylist if rng.random() < 0.7 else keylist + certs
+    if rng.random() < 0.3:
+        ct = rng.choice(ca_types)
+        keys['ssh-ed25519-cert-v01@openssh.com'] = {'ca_type': ct, 'ca_bits': rsa_bits(rng, tier) if ct == 'ssh-rsa' else 0}
+        keylist.insert(rng.randrange(len(keylist) + 1), 'ssh-ed25519-cert-v01@openssh.com')
+    if not keylist:
+        keylist = ['ssh-ed25519']
+        keys['ssh-ed25519'] = {}
+    rng.shuffle(keylist) if rng.random() < 0.5 else None
+    kexr = rng.random()
+    kex = ['curve25519-sha256'] if kexr < 0.7 else [rng.choice(['diffie-hellman-group14-sha256', 'ecdh-sha2-nistp256', 'diffie-hellman-group1-sha1', 'curve25519-sha256@libssh.org',
+                                                                'diffie-hellman-group16-sha512', 'ecdh-sha2-nistp521', 'diffie-hellman-group-exchange-sha256'])]
+    prof = {'banner': rng.choice(['SSH-2.0-OpenSSH_9.6', 'SSH-2.0-Sim_1.0']), 'kex': kex + ['kex-strict-s-v00@openssh.com'], 'key': keylist, 'enc': ['aes128-ctr'],
+            'mac': ['hmac-sha2-256'], 'comp': ['none'], 'keys': keys, 'gex': {'sizes': [3072], 'style': 'roundup'}}
+    return prof
+
+
 def cases(seed, tier):
     for i in range(NCASES[tier]):
         rng = gen.case_rng(seed, ID, i)
-        fam = rng.sample(RSA, rng.randrange(0, 4))
-        others = rng.sample(OTHER, rng.randrange(0, 3))
-        keys = {}
-        keylist = list(fam) + others
-        if fam:
-            keys['ssh-rsa'] = {'bits': rsa_bits(rng, tier)}
-        for o in others:
-            keys[o] = {}
-        ca_types = ['ssh-rsa', 'ssh-rsa', 'ssh-ed25519', 'ecdsa-sha2-nistp256', 'ecdsa-sha2-nistp384', 'ecdsa-sha2-nistp521']
-        if rng.random() < 0.45:
-            certs = rng.sample(RSA_CERTS, rng.randrange(1, 3))
-            ct = rng.choice(ca_types)
-            spec = {'bits': keys.get('ssh-rsa', {}).get('bits') or rsa_bits(rng, tier), 'ca_type': ct, 'ca_bits': rsa_bits(rng, tier) if ct == 'ssh-rsa' else 0}
-            keys['ssh-rsa-cert-v01@openssh.com'] = spec
-            keylist = certs + keylist if rng.random() < 0.7 else keylist + certs
-        if rng.random() < 0.3:
-            ct = rng.choice(ca_types)
-            keys['ssh-ed25519-cert-v01@openssh.com'] = {'ca_type': ct, 'ca_bits': rsa_bits(rng, tier) if ct == 'ssh-rsa' else 0}
-            keylist.insert(rng.randrange(len(keylist) + 1), 'ssh-ed25519-cert-v01@openssh.com')
-        if not keylist:
-            keylist = ['ssh-ed25519']
-            keys['ssh-ed25519'] = {}
-        rng.shuffle(keylist) if rng.random() < 0.5 else None
-        kexr = rng.random()
-        kex = ['curve25519-sha256'] if kexr < 0.7 else [rng.choice(['diffie-hellman-group14-sha256', 'ecdh-sha2-nistp256', 'diffie-hellman-group1-sha1', 'curve25519-sha256@libssh.org',
-                                                                    'diffie-hellman-group16-sha512', 'ecdh-sha2-nistp521', 'diffie-hellman-group-exchange-sha256'])]
-        prof = {'banner': rng.choice(['SSH-2.0-OpenSSH_9.6', 'SSH-2.0-Sim_1.0']), 'kex': kex + ['kex-strict-s-v00@openssh.com'], 'key': keylist, 'enc': ['aes128-ctr'],
-                'mac': ['hmac-sha2-256'], 'comp': ['none'], 'keys': keys, 'gex': {'sizes': [3072], 'style': 'roundup'}}
+        prof = make_prof(rng, tier)
         c = {'profile': prof, 'opts': rng.choice([['-n'], ['-n'], ['-n', '-v'], ['-j'], ['-n', '-b']]), 'net': gen.rand_net(rng) if rng.random() < 0.4 else {'rtt_us': 100},
              'knobs': gen.rand_knobs(rng), 'pseed': rng.getrandbits(32)}
         if rng.random() < 0.25:
@@ -80,6 +85,13 @@ def cases(seed, tier):
                 f['n'] = 50
             c['faults'] = [f]
             c['timeout'] = 1
+        elif i % 8 == 3:
+            # the same server probed while a second one, with other keys, is probed by another worker of the same invocation
+            r2 = gen.case_rng(seed, ID, i, 'beside')
+            c['beside'] = make_prof(r2, tier)
+            c['threads'] = r2.choice([2, 2, 32])
+            c['sched'] = gen.rand_sched(r2, preempt=r2.random() < 0.5)
+            c['net'] = {'rtt_us': 100}
         yield c
 
 
@@ -112,7 +124,8 @@ def size_notes(alg, notes):
 
 
 def run_case(case, ctx):
-    out, keys = [], []
+    if case.get('beside'):
+        return run_pair(case, ctx)
     prof = case['profile']
     argv = list(case['opts']) + ['--skip-rate-test', '-t', str(case.get('timeout', 3)), 'srv.example:2222']
     plan = gen.server_plan(case['pseed'], argv, prof, port=2222, net=case['net'], knobs=case.get('knobs'), faults=case.get('faults'))
@@ -121,9 +134,61 @@ def run_case(case, ctx):
     if rec.get('harness_error'):
         return {'violations': [], 'keys': []}
     if rec['outcome'] != 'exit' or rec['status'] not in (0, 2, 3):
-        out.append(viol('C11 audit did not complete (status %s, %s)' % (rec['status'], rec['outcome']), 'faults=%r\n%s' % (case.get('faults'), rec['stdout'][-900:])))
-        return {'violations': out, 'keys': []}
-    srv = rec['servers'][0]
+        return {'violations': [viol('C11 audit did not complete (status %s, %s)' % (rec['status'], rec['outcome']), 'faults=%r\n%s' % (case.get('faults'), rec['stdout'][-900:]))], 'keys': []}
+    isjson = any(o in ('-j', '-jj') for o in case['opts'])
+    doc = None
+    if isjson:
+        doc, err = report.parse_json(rec['stdout'])
+        if not isinstance(doc, dict):
+            return {'violations': [viol('C11 json unparsable', rec['stdout'][:300])], 'keys': []}
+    out, keys, nparsed = judge(case, prof, rec['servers'][0], doc if isjson else rec['stdout'], isjson)
+    clean = not case.get('faults')
+    return {'violations': out, 'keys': keys, 'counters': {'clean' if clean else 'faulty': 1, 'hostkeys_parsed': nparsed}}
+
+
+def run_pair(case, ctx):
+    """Two servers with different keys in one invocation (-T, >= 2 worker threads, seeded schedule): each block is judged against its own server."""
+    from . import multi
+    profs = [case['profile'], case['beside']]
+    targets = [{'kind': 'server', 'host': 'srv%d.example' % i, 'ip': '192.0.2.%d' % (10 + i), 'port': 2222, 'profile': p} for i, p in enumerate(profs)]
+    mc = {'targets': targets, 'net': case['net'], 'sched': case['sched'], 'knobs': case.get('knobs') or {}, 'pseed': case['pseed'], 'timeout': 3}
+    rec = ctx.run(multi.multi_plan(mc, case['opts'], case['threads'], ctx.scratch()))
+    if rec.get('harness_error'):
+        return {'violations': [], 'keys': []}
+    if rec['outcome'] != 'exit' or rec['status'] not in (0, 2, 3):
+        return {'violations': [viol('C11 two-target audit did not complete (status %s, %s)' % (rec['status'], rec['outcome']), rec['stdout'][-900:])], 'keys': []}
+    isjson = any(o in ('-j', '-jj') for o in case['opts'])
+    per = {}
+    if isjson:
+        doc, err = report.parse_json(rec['stdout'])
+        if not isinstance(doc, list):
+            return {'violations': [viol('C11 json unparsable (two targets)', rec['stdout'][:300])], 'keys': []}
+        for d in doc:
+            i = multi.json_target(d, targets)
+            if i is not None:
+                per[i] = d
+    else:
+        for b in multi.split_text_blocks(rec['stdout']):
+            i = multi.block_target(b, targets)
+            if i is not None:
+                per[i] = b
+    out, keys, n = [], [], 0
+    for i, p in enumerate(profs):
+        srv = next((s_ for s_ in rec['servers'] if s_['name'] == targets[i]['host']), None)
+        if i not in per or srv is None:
+            continue
+        o, k, np_ = judge(case, p, srv, per[i], isjson)
+        for v in o:
+            v['detail'] = '[target %d of 2 in one invocation, %d threads, sched=%r]\n' % (i + 1, case['threads'], case['sched']) + v['detail']
+        out += o
+        keys += [h(x, 'pair') for x in k]
+        n += np_
+    return {'violations': out, 'keys': keys, 'counters': {'beside_another_target': 1, 'hostkeys_parsed': n, 'preemptions': rec.get('preemptions', 0) or 0}}
+
+
+def judge(case, prof, srv, shown, isjson):
+    """shown: the text block or the JSON object of the target served by srv."""
+    out, keys = [], []
     sent = {}          # alg -> blob facts, from what the server really presented
     from ..peers import blob_type_for_alg
     name = srv['name']
@@ -145,17 +210,14 @@ def run_case(case, ctx):
     rep = {}       # alg -> dict(size, ca_size, ca_type, notes)
     fps = {}       # type -> sha256 (and md5)
     if isjson:
-        doc, err = report.parse_json(rec['stdout'])
-        if not isinstance(doc, dict):
-            out.append(viol('C11 json unparsable', rec['stdout'][:300]))
-            return {'violations': out, 'keys': []}
+        doc = shown
         for e in doc.get('key', []):
             notes = [(lv, t) for lv in ('fail', 'warn', 'info') for t in e['notes'].get(lv, [])]
             rep.setdefault(e['algorithm'], {'size': e.get('keysize'), 'ca_size': e.get('casize'), 'ca_type': e.get('ca_algorithm'), 'notes': notes})
         for f in doc.get('fingerprints', []):
             fps.setdefault(f['hostkey'], {})[f['hash_alg']] = f['hash']
     else:
-        tr = report.TextReport(rec['stdout'], verbose=verbose)
+        tr = report.TextReport(shown, verbose=verbose)
         for e in tr.algs['key']:
             rep.setdefault(e['name'], {'size': e['size'], 'ca_size': e['ca_size'], 'ca_type': e['ca_type'], 'notes': e['notes']})
         for ln in tr.fin:
@@ -246,10 +308,24 @@ def run_case(case, ctx):
         famorder = tuple(a for a in advertised if a in RSA)
         keys.append(h(tuple(sorted(set(f['type'] for f in sent.values()))), fam_sent['bits'] if fam_sent else 0,
                       tuple(sorted((f['ca_type'], f['ca_bits']) for f in sent.values() if f['ca_type'])), famorder))
-    return {'violations': out, 'keys': keys, 'counters': {'clean' if clean else 'faulty': 1, 'hostkeys_parsed': len(sent)}}
+    return out, keys, len(sent)
 
 
 def shrink(case):
+    if case.get('beside'):
+        c = copy.deepcopy(case)
+        for k in ('beside', 'threads', 'sched'):
+            c.pop(k, None)
+        yield c
+        c = copy.deepcopy(case)
+        c['profile'], c['beside'] = c['beside'], c['profile']
+        for k in ('beside', 'threads', 'sched'):
+            c.pop(k, None)
+        yield c
+        if case['sched'].get('preempt_p'):
+            c = copy.deepcopy(case)
+            c['sched'] = {'policy': 'random', 'seed': case['sched'].get('seed', 0)}
+            yield c
     keylist = case['profile']['key']
     if len(keylist) > 1:
         for i in range(len(keylist)):
